@@ -555,6 +555,10 @@ def term_kind(fr, t):
         return 'ndarray'
     if tag == 'shaped':
         return 'ndarray'
+    if tag in ('band', 'bor') and t[1] and all(term_kind(fr, x) == 'ndarray' for x in t[1]):
+        return 'ndarray'                                  # element-wise and / or of numpy arrays (a pandas operand would make it a Series)
+    if tag == 'binv' and term_kind(fr, t[1]) == 'ndarray':
+        return 'ndarray'
     if series_like(t):
         return 'series'
     if tag == 'arr':
@@ -650,6 +654,11 @@ def external(fr, dotted, args, kw, extra, n):
     def ev(nm=None, **extra_):
         return ctx.event('call', nm or name, args, kw, guard=guard, loops=loops, where=where, extra=dict(dotted=dotted, **extra_))
 
+    if dotted in ('numpy.logical_or.reduce', 'numpy.logical_and.reduce', 'numpy.bitwise_or.reduce', 'numpy.bitwise_and.reduce') and len(args) == 1 and not kw:
+        seq = args[0][1] if args[0][0] == 'nd' else args[0]
+        if seq[0] in ('list', 'tuple') and seq[1]:
+            # ufunc.reduce over an explicit sequence of element-wise conditions (axis 0): their element-wise conjunction / disjunction
+            return (T.bor if '_or' in dotted else T.band)(list(seq[1]))
     if top == 'numpy':
         ctx.consulted.add('numpy.' + name)
         def same_type(x, dt):
